@@ -3,6 +3,7 @@ package c14
 
 import (
 	"fmt"
+	"regexp"
 	"strings"
 	"testing"
 
@@ -18,6 +19,8 @@ type Case struct {
 	Patch string `json:"patch"` // first operation is the add under test
 	Neg   bool   `json:"support_negative_indices"`
 }
+
+var htmlEsc = regexp.MustCompile(`(?i)\\u(003c|003e|0026)`)
 
 var namePool = []string{"\u0663", "\uff11\uff12", "a", "b", "x/y", "m~n", "~1", "é", "k k", "<&>", "n0", "01x", "a/b~c", "e f", "c", "d"}
 
@@ -238,6 +241,28 @@ func check(c Case) ev.Verdict {
 	if !ref.EqualOrdered(out, want.Doc) {
 		v.Err = fmt.Errorf("result differs from ensure+add (frame condition, created containers, padding)\n got:  %s\n want: %s", got.Out, want.Doc)
 		return v
+	}
+	// created containers obey the call's EscapeHTML setting like everything else: with it off and the
+	// inputs spelled without \u003c-style escapes, the output has none either (and denotes the same value)
+	if in := c.Doc + c.Patch; !htmlEsc.MatchString(in) {
+		raw := on
+		raw.Esc = false
+		gr := lib.Apply(c.Doc, c.Patch, raw)
+		if gr.Panic != nil {
+			return ev.Verdict{Err: gr.Panic}
+		}
+		if gr.Err != nil {
+			v.Err = fmt.Errorf("the same call with EscapeHTML off failed: %v", gr.Err)
+			return v
+		}
+		if htmlEsc.Match(gr.Out) {
+			v.Err = fmt.Errorf("EscapeHTML off, but the output spells <, > or & as an escape (inside a container the option created?): %s", gr.Out)
+			return v
+		}
+		if o2, err := ref.Parse(gr.Out); err != nil || !ref.EqualOrdered(o2, want.Doc) {
+			v.Err = fmt.Errorf("EscapeHTML off changes the value: %s", gr.Out)
+			return v
+		}
 	}
 	// the add alone: value found at the path; agreement with plain add
 	one := ref.OpsText(ops[:1], false)
